@@ -36,6 +36,9 @@ pub fn sid_gt(a: StreamId, b: StreamId) -> (r: bool)
 pub fn verif_last<T>(v: &Vec<T>) -> (r: Option<&T>)
     ensures r == (if v@.len() == 0 { None::<&T> } else { Some(&v@[v@.len() - 1]) }),
 { v.last() }
+/// `now.duration_since(t).unwrap_or_default().as_millis() as u64` (RXPR site): the clock, unconstrained
+#[verifier::external_body]
+pub fn verif_idle_ms(now: SystemTime, t: SystemTime) -> u64 { unimplemented!() }
 /// distinct elements that all occur in a duplicate-free list are at most as many as the list is long
 pub proof fn lemma_sub_len(s: Seq<StreamId>, l: Seq<StreamId>)
     requires s.no_duplicates(), l.no_duplicates(), forall|i: int| 0 <= i < s.len() ==> l.contains(#[trigger] s[i]),
@@ -182,6 +185,16 @@ impl PendingEntryList {
                 && (forall|x: StreamId| x != *id && #[trigger] old(self).ids().contains_key(x) ==> final(self).ids()[x] == old(self).ids()[x])
                 && (forall|c: String| #[trigger] owned(final(self).idx(), c) == owned(old(self).idx(), c)
                         - (if c == old(self).ids()[*id].consumer { 1int } else { 0int }) + (if c == new_consumer { 1int } else { 0int })),
+//@@ body
+//@@ end
+
+//@@ unit pel_get_entry_mut fn src/storage/consumer_groups.rs PendingEntryList::get_entry_mut
+    fn get_entry_mut(&mut self, id: &StreamId) -> (r: Option<&mut PendingEntry>)
+        ensures match r {
+                Some(e) => old(self).ids().contains_key(*id) && *e == old(self).ids()[*id] && final(self).ids() == old(self).ids().insert(*id, *final(e)),
+                None => !old(self).ids().contains_key(*id) && final(self).ids() == old(self).ids(),
+            },
+            final(self).idx() == old(self).idx(),
 //@@ body
 //@@ end
 
@@ -426,6 +439,57 @@ impl ConsumerGroup {
             forall|x: StreamId| #[trigger] final(self).pending.ids().contains_key(x) ==> (if ids_of(entries@).contains(x) { final(self).pending.ids()[x].consumer == string_of(consumer@) && final(self).pending.ids()[x].delivery_count == 1 } else { final(self).pending.ids()[x] == old(self).pending.ids()[x] }),
             // C16: the cursor moves to the last delivered entry and never backwards
             final(self).last_delivered_id == (if entries@.len() > 0 && entries@[entries@.len() - 1].id.packed > old(self).last_delivered_id.packed { entries@[entries@.len() - 1].id } else { old(self).last_delivered_id }),
+//@@ body
+//@@ end
+
+//@@ unit group_claim_messages fn src/storage/consumer_groups.rs ConsumerGroup::claim_messages
+//@@   params drop "&self" add "&mut self"
+//@@   rewrite RT "let mut pending = self.pending.write().unwrap();" ""
+//@@   rewrite RT "self.create_consumer(new_consumer.to_string());" "self.create_consumer(verif_to_string(new_consumer)); let pending = &mut self.pending;"
+//@@   rewrite RT "let mut consumers = self.consumers.write().unwrap();" "let consumers = &mut self.consumers;"
+//@@   rewrite RT "drop(consumers);" ""
+//@@   rewrite RT "let mut claimed = Vec::new();" "let mut claimed: Vec<StreamId> = Vec::new();"
+//@@   rewrite RT "pending.transfer_ownership(id, new_consumer.to_string());" "pending.transfer_ownership(id, verif_to_string(new_consumer));"
+//@@   rewrite RXPR "now.duration_since(entry.last_delivery) .unwrap_or_default() .as_millis()" "verif_idle_ms(now, entry.last_delivery)"
+//@@   rewrite RPCALL "SystemTime::now" verif_now
+//@@   rewrite RFORS 0
+//@@   loop 0
+//@@|     invariant
+//@@|         id__n <= ids@.len(), cname == string_of(new_consumer@),
+//@@|         pending.wf(),
+//@@|         forall|c: String| #[trigger] self.consumers@.contains_key(c) ==> self.consumers@[c].pending_count == owned(pending.idx(), c),
+//@@|         forall|c: String| #[trigger] pending.idx().contains_key(c) ==> self.consumers@.contains_key(c),
+//@@|         self.consumers@.dom() == old(self).consumers@.dom().insert(cname),
+//@@|         pending.ids().dom() == old(self).pending.ids().dom(),
+//@@|         forall|x: StreamId| #[trigger] pending.ids().contains_key(x) ==> pending.ids()[x].delivery_count < u32::MAX - (ids@.len() - id__n),
+//@@|         forall|x: StreamId| #[trigger] pending.ids().contains_key(x) ==> (if claimed@.contains(x) { pending.ids()[x].consumer == cname } else { pending.ids()[x] == old(self).pending.ids()[x] }),
+//@@|         forall|k: int| 0 <= k < claimed@.len() ==> ids@.take(id__n as int).contains(#[trigger] claimed@[k]) && old(self).pending.ids().contains_key(claimed@[k]),
+//@@|         (force || min_idle_ms == 0) ==> forall|j: int| 0 <= j < id__n && old(self).pending.ids().contains_key(#[trigger] ids@[j]) ==> claimed@.contains(ids@[j]),
+//@@|         self.total_pending == old(self).total_pending, self.consumer_count == old(self).consumer_count + (if old(self).consumers@.contains_key(cname) { 0int } else { 1int }), self.last_delivered_id == old(self).last_delivered_id,
+//@@|     decreases ids@.len() - id__n,
+//@@   at "for id in ids"
+//@@|     let ghost cname = string_of(new_consumer@);
+//@@   loopstart 0
+//@@|     let ghost idx_b = pending.idx(); let ghost claimed_b = claimed@;
+//@@|     proof { assert(ids@.take(id__n as int) =~= ids@.take(id__n - 1).push(*id)); lemma_push_contains(ids@.take(id__n - 1), *id); }
+//@@   after "claimed.push(*id);"
+//@@|     proof {
+//@@|         lemma_push_contains(claimed_b, *id);
+//@@|         assert forall|c: String| #[trigger] pending.idx().contains_key(c) implies self.consumers@.contains_key(c) by { if c != cname { assert(owned(pending.idx(), c) > 0); assert(owned(idx_b, c) > 0); assert(idx_b.contains_key(c)); } }
+//@@|     }
+    fn claim_messages(&mut self, new_consumer: &str, min_idle_ms: u64, ids: &[StreamId], force: bool) -> (r: Vec<StreamId>)
+        requires old(self).gwf(), old(self).consumer_count < usize::MAX,
+            // machine arithmetic: no entry has been delivered 2^32 times, no consumer owns 2^64 entries
+            forall|x: StreamId| #[trigger] old(self).pending.ids().contains_key(x) ==> old(self).pending.ids()[x].delivery_count + ids@.len() < u32::MAX,
+            owned(old(self).pending.idx(), string_of(new_consumer@)) + ids@.len() <= usize::MAX,
+        ensures final(self).gwf(), final(self).last_delivered_id == old(self).last_delivered_id,
+            final(self).consumers@.dom() =~= old(self).consumers@.dom().insert(string_of(new_consumer@)),
+            // C16 (XCLAIM): the pending set keeps its ids; a claimed entry belongs to the claimer (and, by gwf, to nobody else); every other entry is untouched
+            final(self).pending.ids().dom() == old(self).pending.ids().dom(),
+            forall|x: StreamId| #[trigger] final(self).pending.ids().contains_key(x) ==> (if r@.contains(x) { final(self).pending.ids()[x].consumer == string_of(new_consumer@) } else { final(self).pending.ids()[x] == old(self).pending.ids()[x] }),
+            // only requested ids that were pending are claimed; without an idle threshold (or with the idle check switched off) all of them are
+            forall|k: int| 0 <= k < r@.len() ==> ids@.contains(#[trigger] r@[k]) && old(self).pending.ids().contains_key(r@[k]),
+            (force || min_idle_ms == 0) ==> forall|j: int| 0 <= j < ids@.len() && old(self).pending.ids().contains_key(#[trigger] ids@[j]) ==> r@.contains(ids@[j]),
 //@@ body
 //@@ end
 }
